@@ -125,6 +125,38 @@ func c14Ops() []c14Op {
 			sort.Strings(inactive)
 			return errStr(n.db.SetActiveSchemaVersion(ctx, inactive[0])) + " " + inactive[0]
 		}},
+		{"patch U +e3 in a transaction that is discarded", func(ctx context.Context, n *c14Node) string {
+			txn, err := n.db.NewTxn(ctx, false)
+			if err != nil {
+				return errStr(err)
+			}
+			res := errStr(txn.PatchSchema(ctx, `[{"op": "add", "path": "/U/Fields/-", "value": {"Name": "e3", "Kind": "Int"}}]`, immutable.None[model.Lens](), true))
+			txn.Discard(ctx)
+			return res + " (discarded)"
+		}},
+		{"switch active version of U in a transaction that is discarded", func(ctx context.Context, n *c14Node) string {
+			cols, err := n.db.GetCollections(ctx, client.CollectionFetchOptions{Name: immutable.Some("U"), IncludeInactive: immutable.Some(true)})
+			if err != nil {
+				return errStr(err)
+			}
+			var inactive []string
+			for _, c := range cols {
+				if !c.Version().IsActive {
+					inactive = append(inactive, c.Version().VersionID)
+				}
+			}
+			if len(inactive) == 0 {
+				return "no other version"
+			}
+			sort.Strings(inactive)
+			txn, err := n.db.NewTxn(ctx, false)
+			if err != nil {
+				return errStr(err)
+			}
+			res := errStr(txn.SetActiveSchemaVersion(ctx, inactive[0]))
+			txn.Discard(ctx)
+			return res + " (discarded)"
+		}},
 		{"create index U.a", func(ctx context.Context, n *c14Node) string {
 			col, err := n.db.GetCollectionByName(ctx, "U")
 			if err != nil {
@@ -222,6 +254,11 @@ func c14Dump(ctx context.Context, d *db.DB) string {
 			b.WriteString(fmt.Sprintf("probe e1: %s %v\n", world.CanonRowsUnordered(world.Rows(data, "U")), errs))
 		}
 	}
+	// the in-memory GraphQL type system, by introspection
+	for _, tn := range []string{"U", "V"} {
+		ti, terrs := world.Exec(ctx, d, fmt.Sprintf(`query { __type(name: %q) { fields { name } } }`, tn))
+		b.WriteString(fmt.Sprintf("graphql type %s: %s %v\n", tn, world.Canon(ti), terrs))
+	}
 	data, errs := world.Exec(ctx, d, `query { commits { cid docID fieldName height schemaVersionId } }`)
 	b.WriteString(fmt.Sprintf("commits %s %v\n", world.CanonRowsUnordered(world.Rows(data, "commits")), errs))
 	all, err := d.GetAllIndexes(ctx)
@@ -246,18 +283,54 @@ func runC14(args []string) int {
 		H = 5
 	}
 	ops := c14Ops()
+	// histories in which an operation has nothing to act on (no document / index / second version /
+	// collection V yet) are not generated: the operation would return its "no ..." sentinel only
+	type gm struct{ versions, indexes, docs int; hasV bool }
+	applicable := func(m gm, name string) bool {
+		switch {
+		case strings.HasPrefix(name, "switch active version"):
+			return m.versions > 1
+		case name == "drop first index of U":
+			return m.indexes > 0
+		case name == "update last U" || name == "delete last U":
+			return m.docs > 0
+		case name == "create V":
+			return m.hasV
+		case name == "add schema V":
+			return !m.hasV
+		}
+		return true
+	}
+	step := func(m gm, name string) gm {
+		switch {
+		case name == "add schema V":
+			m.hasV = true
+		case strings.HasPrefix(name, "patch U +e") && !strings.Contains(name, "discarded"):
+			m.versions++
+		case strings.HasPrefix(name, "create index") || strings.HasPrefix(name, "create unique index"):
+			m.indexes++
+		case name == "drop first index of U":
+			m.indexes--
+		case name == "create U":
+			m.docs++
+		}
+		return m
+	}
 	var hists [][]int
-	var rec func(cur []int)
-	rec = func(cur []int) {
+	var rec func(cur []int, m gm)
+	rec = func(cur []int, m gm) {
 		if len(cur) == H {
 			hists = append(hists, append([]int{}, cur...))
 			return
 		}
 		for i := range ops {
-			rec(append(cur, i))
+			if !applicable(m, ops[i].Name) {
+				continue
+			}
+			rec(append(cur, i), step(m, ops[i].Name))
 		}
 	}
-	rec(nil)
+	rec(nil, gm{versions: 1})
 	st := &c14Stats{}
 	ch := make(chan []int)
 	var wg sync.WaitGroup
